@@ -46,6 +46,9 @@ type Channels struct {
 	progressCache        *progressCache
 	stateMachines        fsm.Group
 	migrateStateMachines func(context.Context) error
+	// stopCtx ends when Stop is called
+	stopCtx    context.Context
+	stopCancel context.CancelFunc
 }
 
 // ChannelEnvironment -- just a proxy for DTNetwork for now
@@ -63,6 +66,7 @@ func New(ds datastore.Batching,
 	selfPeer peer.ID) (*Channels, error) {
 
 	c := &Channels{notifier: notifier}
+	c.stopCtx, c.stopCancel = context.WithCancel(context.Background())
 	c.blockIndexCache = newBlockIndexCache()
 	c.progressCache = newProgressCache()
 	channelMigrations, err := migrations.GetChannelStateMigrations(selfPeer)
@@ -91,6 +95,7 @@ func (c *Channels) Start(ctx context.Context) error {
 
 // Stop stops the channel statemachine
 func (c *Channels) Stop(ctx context.Context) error {
+	c.stopCancel()
 	return c.stateMachines.Stop(ctx)
 }
 
@@ -168,6 +173,12 @@ func (c *Channels) InProgress() (map[datatransfer.ChannelID]datatransfer.Channel
 // GetByID searches for a channel in the slice of channels with id `chid`.
 // Returns datatransfer.EmptyChannelState if there is no channel with that id
 func (c *Channels) GetByID(ctx context.Context, chid datatransfer.ChannelID) (datatransfer.ChannelState, error) {
+	// A state machine that is stopped while this query is queued on it never
+	// answers: stop waiting when Stop is called
+	ctx, cancel := context.WithCancel(ctx)
+	defer cancel()
+	defer context.AfterFunc(c.stopCtx, cancel)()
+
 	var internalChannel internal.ChannelState
 	err := c.stateMachines.GetSync(ctx, chid, &internalChannel)
 	if err != nil {
